@@ -14,6 +14,7 @@ import (
 	"errors"
 	"fmt"
 	"io"
+	"net/http"
 	"strings"
 	"unicode/utf8"
 )
@@ -21,6 +22,7 @@ import (
 var _ = bytes.Equal
 var _ = fmt.Errorf
 var _ *bufio.Reader
+var _ http.ResponseWriter
 var _ = strings.IndexByte
 
 // ---------------------------------------------------------------------------
@@ -970,3 +972,62 @@ func ufWriterOf(w io.Writer) *bufio.Writer { return nil }
 //@   ensures  [errresp] err != nil && outCalls(wrOf(ufWriterOf(io.Writer(conn)))) == old(outCalls(wrOf(ufWriterOf(io.Writer(conn)))))+1 ==> outByte(wrOf(ufWriterOf(io.Writer(conn))), old(outLen(wrOf(ufWriterOf(io.Writer(conn)))))) == 2 || outByte(wrOf(ufWriterOf(io.Writer(conn))), old(outLen(wrOf(ufWriterOf(io.Writer(conn)))))) == 1
 //@   loop 1 invariant [rd] forall(old(linePos(ufReaderOf(io.Reader(conn)))), linePos(br), func(i int) bool { return ufLineErr(br, i) == nil }) && linePos(br) >= old(linePos(ufReaderOf(io.Reader(conn)))) && br == ufReaderOf(io.Reader(conn)) && br != nil && bw == ufWriterOf(io.Writer(conn)) && bw != nil
 //@   loop 1 invariant [wr] outCalls(wrOf(bw)) == old(outCalls(wrOf(ufWriterOf(io.Writer(conn))))) && outLen(wrOf(bw)) == old(outLen(wrOf(ufWriterOf(io.Writer(conn))))) && headerSeen <= 31 && len(nonce) == 24
+
+// ---------------------------------------------------------------------------
+// HTTPUpgrader.Upgrade (C09): the checks on the parsed net/http request and the response chosen.
+// Header values come from a map (not modelled: arbitrary strings); hijacking is abstracted.
+
+func ufHijacked(w http.ResponseWriter) *bufio.ReadWriter { return nil }
+
+//@ func hijack
+//@   trusted
+//@   ensures [rw] result2 == nil ==> result1 != nil && result1 == ufHijacked(w) && result1.Writer != nil && result0 != nil
+//@   assigns nothing
+
+//@ func httpError
+//@   trusted
+//@   assigns nothing
+
+//@ func httpGetHeader
+//@   trusted
+//@   assigns nothing
+
+//@ func strHasToken
+//@   trusted
+//@   assigns nothing
+
+//@ func strings.EqualFold
+//@   assigns nothing
+
+//@ func strSelectProtocol
+//@   trusted
+//@   assigns nothing
+
+//@ func time.Now
+//@   assigns nothing
+
+//@ func time.Time.Add
+//@   assigns nothing
+
+//@ iface net.Conn.SetDeadline(t time.Time) (err error)
+//@   assigns nothing
+
+//@ iface net.Conn.SetWriteDeadline(t time.Time) (err error)
+//@   assigns nothing
+
+//@ func HTTPUpgrader.Upgrade
+//@   props C09
+//@   requires [r] r != nil && w != nil
+//@   ensures  [method] err == nil ==> eqvStr(r.Method, "GET") || len(r.Method) == 3
+//@   ensures  [proto]  err == nil ==> r.ProtoMajor == 1 && r.ProtoMinor >= 1
+//@   ensures  [host]   err == nil ==> len(r.Host) != 0
+//@   ensures  [ok101]  err == nil ==> rw == ufHijacked(w) && outCalls(wrOf(ufHijacked(w).Writer)) == old(outCalls(wrOf(ufHijacked(w).Writer)))+1 && outByte(wrOf(ufHijacked(w).Writer), old(outLen(wrOf(ufHijacked(w).Writer)))) == 1
+//@   ensures  [plain500] err != nil && rw == ufHijacked(w) && outCalls(wrOf(ufHijacked(w).Writer)) == old(outCalls(wrOf(ufHijacked(w).Writer)))+1 && !dynTypeIs(err, "*ws.ConnectionRejectedError") && outByte(wrOf(ufHijacked(w).Writer), old(outLen(wrOf(ufHijacked(w).Writer)))) == 2 ==> outByte(wrOf(ufHijacked(w).Writer), old(outLen(wrOf(ufHijacked(w).Writer)))+1) == 0x01 && outByte(wrOf(ufHijacked(w).Writer), old(outLen(wrOf(ufHijacked(w).Writer)))+2) == 0xf4
+//@   loop 1 invariant [req] err == nil ==> (eqvStr(r.Method, "GET") || len(r.Method) == 3) && r.ProtoMajor == 1 && r.ProtoMinor >= 1 && len(r.Host) != 0
+//@   loop 1 invariant [rw]  rw == ufHijacked(w) && rw != nil && rw.Writer != nil && conn != nil && outCalls(wrOf(rw.Writer)) == old(outCalls(wrOf(ufHijacked(w).Writer))) && outLen(wrOf(rw.Writer)) == old(outLen(wrOf(ufHijacked(w).Writer)))
+//@   loop 2 invariant [req] err == nil ==> (eqvStr(r.Method, "GET") || len(r.Method) == 3) && r.ProtoMajor == 1 && r.ProtoMinor >= 1 && len(r.Host) != 0
+//@   loop 2 invariant [rw]  rw == ufHijacked(w) && rw != nil && rw.Writer != nil && conn != nil && outCalls(wrOf(rw.Writer)) == old(outCalls(wrOf(ufHijacked(w).Writer))) && outLen(wrOf(rw.Writer)) == old(outLen(wrOf(ufHijacked(w).Writer)))
+//@   loop 3 invariant [req] err == nil ==> (eqvStr(r.Method, "GET") || len(r.Method) == 3) && r.ProtoMajor == 1 && r.ProtoMinor >= 1 && len(r.Host) != 0
+//@   loop 3 invariant [rw]  rw == ufHijacked(w) && rw != nil && rw.Writer != nil && conn != nil && outCalls(wrOf(rw.Writer)) == old(outCalls(wrOf(ufHijacked(w).Writer))) && outLen(wrOf(rw.Writer)) == old(outLen(wrOf(ufHijacked(w).Writer)))
+//@   loop 1 invariant [i] 0 <= i
+//@   loop 3 invariant [i] 0 <= i
